@@ -824,3 +824,255 @@ Proof.
     destruct (sid_alloc (th_words t)) as [[sid ws']|]; [|reflexivity].
     destruct (mget sid (th_handlers t)); discriminate.
 Qed.
+
+(* ================================================================ what an accepted history satisfies
+   (soundness of the acceptor w.r.t. the property text, stated on positions of the event list) *)
+
+Lemma acc_step_owed_keep a e a1 sid m : acc_step a e = Some a1 -> mget sid (a_owed a) = Some m ->
+  e = EOut sid m \/ mget sid (a_owed a1) = Some m.
+Proof.
+  intros H Ho. destruct e as [m0|sid0 m0|sid0 m0|m0 o]; cbn [acc_step] in H.
+  - destruct (mhas m0 (a_sub a)); inv_some H. now right.
+  - destruct ((sid0 <? nids) && mhas m0 (a_sub a) && negb (mhas m0 (a_recv a)) && negb (mhas m0 (a_done a)) &&
+              negb (mhas sid0 (a_owed a))) eqn:E; [|discriminate]. inv_some H. right. acc_simpl.
+    apply Bool.andb_true_iff in E as [_ E]. apply Bool.negb_true_iff, mhas_false in E.
+    assert (sid <> sid0) by congruence. now rewrite mget_mput_other.
+  - destruct (mget sid0 (a_owed a)) as [m'|] eqn:E; [|discriminate].
+    destruct (N.eqb_spec m' m0); [|discriminate]. inv_some H. acc_simpl.
+    destruct (N.eq_dec sid sid0).
+    + subst. left. congruence.
+    + right. now rewrite mget_mrem_other.
+  - destruct (mhas m0 (a_sub a) && negb (mhas m0 (a_done a)) && _); inv_some H. now right.
+Qed.
+
+(* while stream sid is owed for m, no other request frame is accepted on it before the answer *)
+Lemma owed_blocks evs : forall a af sid m j m2, acc_run a evs = Some af ->
+  mget sid (a_owed a) = Some m -> nth_error evs j = Some (EIn sid m2) ->
+  exists k, (k < j)%nat /\ nth_error evs k = Some (EOut sid m).
+Proof.
+  induction evs as [|e r IH]; intros a af sid m j m2 H Ho Hj; [destruct j; discriminate|].
+  cbn [acc_run] in H. destruct (acc_step a e) as [a1|] eqn:Hs; [|discriminate].
+  destruct j as [|j]; cbn [nth_error] in Hj.
+  - inv_some Hj. exfalso. cbn [acc_step] in Hs.
+    destruct ((sid <? nids) && mhas m2 (a_sub a) && negb (mhas m2 (a_recv a)) && negb (mhas m2 (a_done a)) &&
+              negb (mhas sid (a_owed a))) eqn:E; [|discriminate].
+    apply Bool.andb_true_iff in E as [_ E]. apply Bool.negb_true_iff, mhas_false in E. congruence.
+  - destruct (acc_step_owed_keep _ _ _ _ _ Hs Ho) as [E0|Ho1].
+    + subst e. exists 0%nat. split; [lia|reflexivity].
+    + destruct (IH _ _ _ _ _ _ H Ho1 Hj) as (k & Hk & Hn). exists (S k). split; [lia|exact Hn].
+Qed.
+
+Lemma acc_run_no_share evs : forall a af i j sid m1 m2, acc_run a evs = Some af -> (i < j)%nat ->
+  nth_error evs i = Some (EIn sid m1) -> nth_error evs j = Some (EIn sid m2) ->
+  exists k, (i < k < j)%nat /\ nth_error evs k = Some (EOut sid m1).
+Proof.
+  induction evs as [|e r IH]; intros a af i j sid m1 m2 H Hij Hi Hj; [destruct i; discriminate|].
+  cbn [acc_run] in H. destruct (acc_step a e) as [a1|] eqn:Hs; [|discriminate].
+  destruct j as [|j]; [lia|]. cbn [nth_error] in Hj. destruct i as [|i]; cbn [nth_error] in Hi.
+  - inv_some Hi. cbn [acc_step] in Hs.
+    destruct ((sid <? nids) && mhas m1 (a_sub a) && negb (mhas m1 (a_recv a)) && negb (mhas m1 (a_done a)) &&
+              negb (mhas sid (a_owed a))); [|discriminate]. inv_some Hs.
+    assert (Ho : mget sid (a_owed (mk_acc (a_pos a + 1) (a_sub a) (mput m1 sid (a_recv a))
+                                          (mput sid m1 (a_owed a)) (a_ans a) (a_done a))) = Some m1)
+      by (acc_simpl; apply mget_mput_same).
+    destruct (owed_blocks _ _ _ _ _ _ _ H Ho Hj) as (k & Hk & Hn). exists (S k). split; [lia|exact Hn].
+  - destruct (IH _ _ i j _ _ _ H ltac:(lia) Hi Hj) as (k & Hk & Hn). exists (S k). split; [lia|exact Hn].
+Qed.
+
+Lemma acc_step_ans a e a1 m : acc_step a e = Some a1 -> mhas m (a_ans a1) = true ->
+  mhas m (a_ans a) = true \/ exists sid, e = EOut sid m.
+Proof.
+  intros H Hm. destruct e as [m0|sid0 m0|sid0 m0|m0 o]; cbn [acc_step] in H.
+  - destruct (mhas m0 (a_sub a)); inv_some H. now left.
+  - destruct (_ && _); inv_some H. now left.
+  - destruct (mget sid0 (a_owed a)) as [m'|]; [|discriminate].
+    destruct (m' =? m0); inv_some H. acc_simpl. rewrite mhas_mput in Hm.
+    destruct (N.eqb_spec m m0); [subst; right; eauto|now left].
+  - destruct (_ && _); inv_some H. now left.
+Qed.
+
+Lemma acc_run_rows evs : forall a af k m m', acc_run a evs = Some af ->
+  nth_error evs k = Some (EDone m (ORows m')) ->
+  m' = m /\ (mhas m (a_ans a) = true \/
+             exists j sid, (j < k)%nat /\ nth_error evs j = Some (EOut sid m)).
+Proof.
+  induction evs as [|e r IH]; intros a af k m m' H Hk; [destruct k; discriminate|].
+  cbn [acc_run] in H. destruct (acc_step a e) as [a1|] eqn:Hs; [|discriminate].
+  destruct k as [|k]; cbn [nth_error] in Hk.
+  - inv_some Hk. cbn [acc_step] in Hs.
+    destruct (mhas m (a_sub a) && negb (mhas m (a_done a)) && ((m' =? m) && mhas m (a_ans a))) eqn:E; [|discriminate].
+    apply Bool.andb_true_iff in E as [_ E]. apply Bool.andb_true_iff in E as [E1 E2].
+    apply N.eqb_eq in E1. split; [assumption|now left].
+  - destruct (IH _ _ _ _ _ H Hk) as [Hm [Ha|(j & sid & Hj & Hn)]]; (split; [assumption|]).
+    + destruct (acc_step_ans _ _ _ _ Hs Ha) as [Ha0|[sid E0]]; [now left|]. subst e.
+      right. exists 0%nat, sid. split; [lia|reflexivity].
+    + right. exists (S j), sid. split; [lia|exact Hn].
+Qed.
+
+Lemma acc_step_owed_new a e a1 sid m : acc_step a e = Some a1 -> mget sid (a_owed a1) = Some m ->
+  mget sid (a_owed a) = Some m \/ e = EIn sid m.
+Proof.
+  intros H Ho. destruct e as [m0|sid0 m0|sid0 m0|m0 o]; cbn [acc_step] in H.
+  - destruct (mhas m0 (a_sub a)); inv_some H. now left.
+  - destruct (_ && _); inv_some H. acc_simpl. destruct (N.eq_dec sid sid0).
+    + subst. rewrite mget_mput_same in Ho. inv_some Ho. now right.
+    + rewrite mget_mput_other in Ho by assumption. now left.
+  - destruct (mget sid0 (a_owed a)) as [m'|]; [|discriminate].
+    destruct (m' =? m0); inv_some H. acc_simpl. destruct (N.eq_dec sid sid0).
+    + subst. now rewrite mget_mrem_same in Ho.
+    + rewrite mget_mrem_other in Ho by assumption. now left.
+  - destruct (_ && _); inv_some H. now left.
+Qed.
+
+Lemma acc_run_out evs : forall a af j sid m, acc_run a evs = Some af ->
+  nth_error evs j = Some (EOut sid m) ->
+  mget sid (a_owed a) = Some m \/ exists i, (i < j)%nat /\ nth_error evs i = Some (EIn sid m).
+Proof.
+  induction evs as [|e r IH]; intros a af j sid m H Hj; [destruct j; discriminate|].
+  cbn [acc_run] in H. destruct (acc_step a e) as [a1|] eqn:Hs; [|discriminate].
+  destruct j as [|j]; cbn [nth_error] in Hj.
+  - inv_some Hj. cbn [acc_step] in Hs. destruct (mget sid (a_owed a)) as [m'|] eqn:E; [|discriminate].
+    destruct (N.eqb_spec m' m); [|discriminate]. subst. now left.
+  - destruct (IH _ _ _ _ _ H Hj) as [Ho|(i & Hi & Hn)].
+    + destruct (acc_step_owed_new _ _ _ _ _ Hs Ho) as [Ho0|E0]; [now left|]. subst e.
+      right. exists 0%nat. split; [lia|reflexivity].
+    + right. exists (S i). split; [lia|exact Hn].
+Qed.
+
+Lemma trace_ok_run evs : c02_trace_ok evs = true -> exists a, acc_run acc_init evs = Some a.
+Proof. unfold c02_trace_ok. destruct (acc_run acc_init evs); [eauto|discriminate]. Qed.
+
+(* sentence 2 of the property: between two request frames on one stream id the peer has answered
+   the first one *)
+Theorem trace_ok_no_share evs i j sid m1 m2 : c02_trace_ok evs = true -> (i < j)%nat ->
+  nth_error evs i = Some (EIn sid m1) -> nth_error evs j = Some (EIn sid m2) ->
+  exists k, (i < k < j)%nat /\ nth_error evs k = Some (EOut sid m1).
+Proof. intros H. destruct (trace_ok_run _ H) as [a Ha]. eapply acc_run_no_share; eassumption. Qed.
+
+(* sentence 1: a caller that completed with rows got the rows built for its own marker, which the
+   peer had sent before on the stream id it had received that very request with *)
+Theorem trace_ok_delivery evs k m m' : c02_trace_ok evs = true ->
+  nth_error evs k = Some (EDone m (ORows m')) ->
+  m' = m /\ exists i j sid, (i < j < k)%nat /\ nth_error evs i = Some (EIn sid m) /\
+                            nth_error evs j = Some (EOut sid m).
+Proof.
+  intros H Hk. destruct (trace_ok_run _ H) as [a Ha].
+  destruct (acc_run_rows _ _ _ _ _ _ Ha Hk) as [Hm [Hx|(j & sid & Hj & Hn)]].
+  - cbn in Hx. now rewrite mhas_mempty in Hx.
+  - split; [assumption|]. destruct (acc_run_out _ _ _ _ _ _ Ha Hn) as [Hx|(i & Hi & Hni)].
+    + cbn in Hx. now rewrite mget_mempty in Hx.
+    + exists i, j, sid. repeat split; try lia; assumption.
+Qed.
+
+(* ================================================================ the stream-id sentence for EVERY
+   operation sequence on the map (duplicated request ids and tokens included) *)
+Record KInv (m : hmap) (st : list N) : Prop := {
+  k_wf : wf_words (hm_words m);
+  k_st : forall j, smem j st = used (hm_words m) j;
+  k_h : forall sid h, mget sid (hm_handlers m) = Some h -> used (hm_words m) sid = true;
+  k_o : forall sid, smem sid (hm_orphans m) = true ->
+        used (hm_words m) sid = true /\ mget sid (hm_handlers m) = None;
+  k_r : forall rid sid, mget rid (hm_r2s m) = Some sid ->
+        exists tok, mget sid (hm_handlers m) = Some (rid, tok)
+}.
+
+Lemma KInv_new : KInv hm_new [].
+Proof.
+  constructor; cbn [hm_new hm_words hm_handlers hm_r2s hm_orphans].
+  - apply wf_sid_new.
+  - intros j. now rewrite used_sid_new.
+  - intros sid h H. now rewrite mget_mempty in H.
+  - intros sid H. discriminate.
+  - intros rid sid H. now rewrite mget_mempty in H.
+Qed.
+
+Lemma smem_cons x y l : smem x (y :: l) = (x =? y) || smem x l.
+Proof. reflexivity. Qed.
+
+Lemma KInv_step m st o : KInv m st -> op_in_range o ->
+  exists st', ids_check_step st o (snd (hm_step m o)) = Some st' /\ KInv (fst (hm_step m o)) st'.
+Proof.
+  intros [A B C D E] Hr. destruct o as [rid tok|rid|sid|tok]; cbn [hm_step].
+  - unfold hm_allocate. destruct (sid_alloc (hm_words m)) as [[sid ws']|] eqn:Ha.
+    + destruct (bitmap_alloc _ _ _ A Ha) as (Hlt & Hfree & _ & Hset & Hwf').
+      assert (Hn : mget sid (hm_handlers m) = None).
+      { destruct (mget sid (hm_handlers m)) eqn:G; [|reflexivity]. apply C in G. congruence. }
+      rewrite Hn. cbn [fst snd ids_check_step].
+      assert (H1 : (sid <? nids) = true) by now apply N.ltb_lt.
+      assert (H2 : smem sid st = false) by now rewrite B.
+      rewrite H1, H2. cbn [andb negb]. eexists. split; [reflexivity|].
+      constructor; cbn [hm_words hm_handlers hm_r2s hm_orphans].
+      * exact Hwf'.
+      * intros j. now rewrite smem_cons, Hset, B.
+      * intros s h G. rewrite Hset. destruct (N.eqb_spec s sid); [reflexivity|].
+        rewrite mget_mput_other in G by assumption. cbn [orb]. eauto.
+      * intros s G. destruct (D s G) as [G1 G2]. assert (s <> sid) by congruence.
+        rewrite Hset, G1, Bool.orb_true_r. split; [reflexivity|]. now rewrite mget_mput_other.
+      * intros r s G. destruct (N.eq_dec r rid).
+        -- subst. rewrite mget_mput_same in G. inv_some G. exists tok. apply mget_mput_same.
+        -- rewrite mget_mput_other in G by assumption. destruct (E r s G) as [t Ht].
+           assert (s <> sid) by congruence. exists t. now rewrite mget_mput_other.
+    + cbn [fst snd ids_check_step].
+      assert (Hall : forall_below nids (fun j => smem j st) = true).
+      { apply forall_below_spec. intros i Hi. rewrite B. now apply (proj1 (bitmap_full _ A) Ha). }
+      rewrite Hall. eexists. split; [reflexivity|]. constructor; assumption.
+  - unfold hm_orphan. cbn [fst snd ids_check_step]. eexists. split; [reflexivity|].
+    destruct (mget rid (hm_r2s m)) as [sid|] eqn:G; [|constructor; assumption].
+    destruct (E _ _ G) as [tok Ht].
+    constructor; cbn [hm_words hm_handlers hm_r2s hm_orphans]; try assumption.
+    + intros s h G1. destruct (N.eq_dec s sid); [subst; now rewrite mget_mrem_same in G1|].
+      rewrite mget_mrem_other in G1 by assumption. eauto.
+    + intros s G1. rewrite smem_sadd in G1. destruct (N.eqb_spec s sid).
+      * subst. split; [eauto|apply mget_mrem_same].
+      * cbn [orb] in G1. destruct (D s G1). split; [assumption|]. now rewrite mget_mrem_other.
+    + intros r s G1. destruct (N.eq_dec r rid); [subst; now rewrite mget_mrem_same in G1|].
+      rewrite mget_mrem_other in G1 by assumption. destruct (E r s G1) as [t Ht'].
+      assert (s <> sid). { intros ->. rewrite Ht in Ht'. congruence. }
+      exists t. now rewrite mget_mrem_other.
+  - cbn [op_in_range] in Hr. destruct (bitmap_free _ _ A Hr) as [Hf Hwf'].
+    unfold hm_lookup. destruct (smem sid (hm_orphans m)) eqn:Ho.
+    + cbn [fst snd ids_check_step]. eexists. split; [reflexivity|].
+      destruct (D sid Ho) as [_ Hnone].
+      constructor; cbn [hm_words hm_handlers hm_r2s hm_orphans]; try assumption.
+      * intros j. now rewrite smem_srem, Hf, B.
+      * intros s h G. rewrite Hf. assert (s <> sid) by congruence.
+        destruct (N.eqb_spec s sid); [contradiction|]. cbn [negb andb]. eauto.
+      * intros s G. rewrite smem_srem in G. apply Bool.andb_true_iff in G as [G1 G2].
+        destruct (D s G2). rewrite Hf, G1. cbn [andb]. tauto.
+    + destruct (mget sid (hm_handlers m)) as [[r t]|] eqn:Hh; cbn [fst snd ids_check_step];
+        (eexists; split; [reflexivity|]); constructor; cbn [hm_words hm_handlers hm_r2s hm_orphans];
+        try assumption.
+      * intros j. now rewrite smem_srem, Hf, B.
+      * intros s h G. destruct (N.eq_dec s sid); [subst; now rewrite mget_mrem_same in G|].
+        rewrite mget_mrem_other in G by assumption. rewrite Hf.
+        destruct (N.eqb_spec s sid); [contradiction|]. cbn [negb andb]. eauto.
+      * intros s G. assert (s <> sid) by congruence. destruct (D s G). rewrite Hf.
+        destruct (N.eqb_spec s sid); [contradiction|]. cbn [negb andb].
+        split; [assumption|]. now rewrite mget_mrem_other.
+      * intros r' s G. destruct (N.eq_dec r' r); [subst; now rewrite mget_mrem_same in G|].
+        rewrite mget_mrem_other in G by assumption. destruct (E r' s G) as [t' Ht'].
+        assert (s <> sid). { intros ->. rewrite Hh in Ht'. congruence. }
+        exists t'. now rewrite mget_mrem_other.
+      * intros j. now rewrite smem_srem, Hf, B.
+      * intros s h G. assert (s <> sid) by congruence. rewrite Hf.
+        destruct (N.eqb_spec s sid); [contradiction|]. cbn [negb andb]. eauto.
+      * intros s G. assert (s <> sid) by congruence. destruct (D s G). rewrite Hf.
+        destruct (N.eqb_spec s sid); [contradiction|]. cbn [negb andb]. tauto.
+  - cbn [fst snd ids_check_step]. eexists. split; [reflexivity|]. constructor; assumption.
+Qed.
+
+Lemma ids_run_ok ops : forall m st, KInv m st -> Forall op_in_range ops ->
+  ids_check_from st ops (snd (hm_run m ops)) = true.
+Proof.
+  induction ops as [|o r IH]; intros m st HK HF; cbn [hm_run]; [reflexivity|].
+  inversion HF as [|? ? Ho Hr]; subst.
+  destruct (KInv_step m st o HK Ho) as (st' & Hs & HK').
+  destruct (hm_step m o) as [m1 x]. cbn [fst snd] in *.
+  specialize (IH m1 st' HK' Hr). destruct (hm_run m1 r) as [m2 xs]. cbn [snd ids_check_from] in *.
+  now rewrite Hs.
+Qed.
+
+(* for EVERY operation sequence, also with repeated request ids and tokens: no id is handed out
+   while outstanding, a refusal only with 32768 outstanding, the assert never fires *)
+Theorem ids_spec ops : Forall op_in_range ops -> ids_check ops (snd (hm_run hm_new ops)) = true.
+Proof. intros H. apply ids_run_ok; [apply KInv_new|assumption]. Qed.
